@@ -193,5 +193,29 @@ PROGRAMS += [
     ('while_continue_last', [let('i', I(0)), let('n', I(0)),
                              WH(B('<', V('i'), I(5)), [inc('i'), IF(B('==', B('%', V('i'), I(2)), I(1)), [('continue',)]), inc('n', P('p1'))]),
                              RET(B('+', B('*', V('i'), I(100)), V('n')))]),
+    # an instance that is still related is deleted: its links go with it, on BOTH sides (here the deleted instance is of the
+    # class that holds no referential attribute); the partner can be related anew afterwards
+    ('delete_related', [('create', 'a', 'A'), ('create', 'b1', 'B'), ('create', 'b2', 'B'), ('create', 'a3', 'A'),
+                        ('relate', 'b1', 'a', 1, None), ('relate', 'b2', 'a', 1, None), seta('a3', 'n', P('p1')),
+                        ('delete', 'a'),
+                        ('select_rel', 'one', 'x', V('b1'), [('A', 1, None)], None),
+                        ('select_rel', 'many', 'bs', V('a3'), [('B', 1, None)], None),
+                        let('r', B('+', B('*', U('cardinality', V('x')), I(100)), U('cardinality', V('bs')))),
+                        ('relate', 'b1', 'a3', 1, None),
+                        ('select_rel', 'one', 'y', V('b1'), [('A', 1, None)], None),
+                        IF(U('not_empty', V('y')), [inc('r', A(V('y'), 'n'))]),
+                        ('create', 'l', 'L'), ('relate_using', 'a3', 'b2', 'l', 3), ('delete', 'l'),
+                        ('select_rel', 'many', 'ls', V('a3'), [('L', 3, None)], None),
+                        RET(B('+', V('r'), B('*', U('cardinality', V('ls')), I(1000))))]),
+    # a reflexive association relating an instance to ITSELF (both operands of relate denote the same instance)
+    ('relate_self', [('create', 'c1', 'C'), ('create', 'c2', 'C'), let('c3', V('c1')),
+                     ('relate', 'c1', 'c3', 2, 'precedes'),
+                     ('select_rel', 'one', 'x', V('c1'), [('C', 2, 'precedes')], None),
+                     ('select_rel', 'one', 'y', V('c1'), [('C', 2, 'succeeds')], None),
+                     ('select_rel', 'one', 'z', V('c2'), [('C', 2, 'succeeds')], None),
+                     let('r', B('+', B('*', U('cardinality', V('x')), I(100)), B('+', B('*', U('cardinality', V('y')), I(10)), U('cardinality', V('z'))))),
+                     ('unrelate', 'c1', 'c3', 2, 'precedes'),
+                     ('select_rel', 'one', 'w', V('c1'), [('C', 2, 'precedes')], None),
+                     RET(B('+', V('r'), B('*', U('cardinality', V('w')), I(1000))))]),
 ]
 NAMES = [n for n, _ in PROGRAMS]
